@@ -103,7 +103,7 @@ func (rd *realDecoder) getArrayLength() (int, error) {
 	if tmp > rd.remaining() {
 		rd.off = len(rd.raw)
 		return -1, ErrInsufficientData
-	} else if tmp > 2*math.MaxUint16 {
+	} else if tmp > 2*math.MaxUint16 || tmp < -1 {
 		return -1, errInvalidArrayLength
 	}
 	return tmp, nil
@@ -117,6 +117,11 @@ func (rd *realDecoder) getCompactArrayLength() (int, error) {
 
 	if n == 0 {
 		return 0, nil
+	}
+
+	if n-1 > uint64(rd.remaining()) {
+		rd.off = len(rd.raw)
+		return 0, ErrInsufficientData
 	}
 
 	return int(n) - 1, nil
@@ -230,6 +235,12 @@ func (rd *realDecoder) getCompactString() (string, error) {
 	}
 
 	length := int(n - 1)
+	if length < 0 {
+		return "", errInvalidStringLength
+	} else if length > rd.remaining() {
+		rd.off = len(rd.raw)
+		return "", ErrInsufficientData
+	}
 
 	tmpStr := string(rd.raw[rd.off : rd.off+length])
 	rd.off += length
@@ -246,6 +257,9 @@ func (rd *realDecoder) getCompactNullableString() (*string, error) {
 
 	if length < 0 {
 		return nil, err
+	} else if length > rd.remaining() {
+		rd.off = len(rd.raw)
+		return nil, ErrInsufficientData
 	}
 
 	tmpStr := string(rd.raw[rd.off : rd.off+length])
@@ -261,6 +275,11 @@ func (rd *realDecoder) getCompactInt32Array() ([]int32, error) {
 
 	if n == 0 {
 		return nil, nil
+	}
+
+	if n-1 > uint64(rd.remaining()/4) {
+		rd.off = len(rd.raw)
+		return nil, ErrInsufficientData
 	}
 
 	arrayLength := int(n) - 1
@@ -339,6 +358,12 @@ func (rd *realDecoder) getStringArray() ([]string, error) {
 	}
 	n := int(binary.BigEndian.Uint32(rd.raw[rd.off:]))
 	rd.off += 4
+
+	// every string takes at least its two length bytes
+	if rd.remaining() < 2*n {
+		rd.off = len(rd.raw)
+		return nil, ErrInsufficientData
+	}
 
 	if n == 0 {
 		return nil, nil
